@@ -414,9 +414,25 @@ class TextXVisitor(RRELVisitor):
                 rule_name = rule.rule_name
                 suppress = rule.suppress
                 if rule_name in model_parser.metamodel:
+                    position = rule.position
                     rule = model_parser.metamodel[rule_name]._tx_peg_rule
                     if isinstance(rule, RuleCrossRef):
-                        rule = _resolve_rule(rule)
+                        # The body of the referenced rule is a single rule
+                        # reference.
+                        if rule_name in alias_chain:
+                            line, col = grammar_parser.pos_to_linecol(position)
+                            raise TextXSemanticError(
+                                f'Rule "{rule_name}" is defined by itself '
+                                f"at position {(line, col)}.",
+                                line,
+                                col,
+                                filename=model_parser.metamodel.file_name,
+                            )
+                        alias_chain.append(rule_name)
+                        try:
+                            rule = _resolve_rule(rule)
+                        finally:
+                            alias_chain.pop()
                         model_parser.metamodel[rule_name]._tx_peg_rule = rule
                     if suppress:
                         # Special case. Suppression on rule reference.
@@ -450,6 +466,8 @@ class TextXVisitor(RRELVisitor):
                 grammar_parser.dprint(f"RESOLVING RULE CROSS-REFS - PASS {i + 1}")
 
             resolved_rules = set()
+            # Names of the rules whose single rule reference is being resolved
+            alias_chain = []
             _resolve_rule(model_parser.parser_model)
 
             # Resolve rules of all meta-classes to handle unreferenced
